@@ -215,8 +215,11 @@ func partSchedules(dir string, tier string, acc *ev.Acc, start time.Time, only [
 
 // ---------------------------------------------------------------- part A / C
 
+// binFlags are passed to every invocation of the binary in part A (the part is run once per flag set)
+var binFlags []string
+
 func runBin(bin, dir, out string, env []string, pats []string) (int, string) {
-	c := exec.Command(bin, append([]string{"-out", out}, pats...)...)
+	c := exec.Command(bin, append(append([]string{"-out", out}, binFlags...), pats...)...)
 	c.Dir = dir
 	c.Env = append(os.Environ(), env...)
 	var stderr bytes.Buffer
@@ -260,6 +263,9 @@ func partBinary(goose, dir, work, tier string, acc *ev.Acc) {
 	if tier == "thorough" {
 		reps = 5
 	}
+	if tier == "flags" {
+		reps = 1
+	}
 	type job struct {
 		id    int
 		order []string
@@ -270,6 +276,9 @@ func partBinary(goose, dir, work, tier string, acc *ev.Acc) {
 	id := 0
 	sets := subsets(pkgNames, len(pkgNames))
 	for _, set := range sets {
+		if tier == "flags" && len(set) != 2 && len(set) != len(pkgNames) {
+			continue
+		}
 		if len(set) > 2 && len(set) < len(pkgNames) {
 			fg, late := 0, 0
 			for _, n := range set {
@@ -324,7 +333,7 @@ func partBinary(goose, dir, work, tier string, acc *ev.Acc) {
 				os.RemoveAll(out)
 				acc.Add("binary_invocations", 1)
 				viol := func(kind, msg string) {
-					acc.Violate(ev.Violation{Key: fmt.Sprintf("C06/binary/%s/%s", kind, strings.Join(order, ",")), Msg: fmt.Sprintf("goose %s (run %d, GOMAXPROCS=%d): %s", strings.Join(pats(order), " "), rep+1, j.procs, msg), Replay: map[string]any{"part": "binary", "packages": order}})
+					acc.Violate(ev.Violation{Key: fmt.Sprintf("C06/binary/%s/%s%s", kind, strings.Join(order, ","), strings.Join(binFlags, "")), Msg: fmt.Sprintf("goose %s %s (run %d, GOMAXPROCS=%d): %s", strings.Join(binFlags, " "), strings.Join(pats(order), " "), rep+1, j.procs, msg), Replay: map[string]any{"part": "binary", "packages": order}})
 				}
 				wantCode := 0
 				want := map[string]string{}
@@ -452,11 +461,17 @@ func main() {
 	}
 	acc.Merge(sacc)
 	partBinary(*goose, dir, work, *tier, acc)
+	for _, fl := range [][]string{{"-source-comments"}, {"-typecheck"}} {
+		// flags that add text to the output: what they add must not depend on the company either
+		binFlags = fl
+		partBinary(*goose, dir, work, "flags", acc)
+	}
+	binFlags = nil
 	partRace(*raceBin, dir, work, acc)
 	os.RemoveAll(work)
 	os.Exit(acc.Done(ev.Finish{
 		Prop: "C06", Tier: *tier, Level: "model_checking", Start: start,
-		Rule:        "fixture of 8 packages (plain; two files on the disk FFI; conversion errors among good declarations; importing another package and re-using its identifiers with other shapes; sync + an error; a package exporting a struct / method / constant / interface and a package using them; a declaration with seven independent forward references). (B) the real TranslatePackages under the controlled scheduler (interface.go instrumented by overlay: workers are controlled threads, WaitGroup/channels are scheduler objects, preemption points at function entries and loop heads, i.e. between declarations; every range over a map in the translator and printer iterates in an order chosen by the explorer; packages.Load memoised): every pair of packages with <=2 preemptions and every triple with <=1 (thorough: pairs 3, triples 2, quadruples 1), in both pattern orders; oracle: every returned (package, file bytes, error text) equals the solo translation and the returned sequence is the same in every schedule. (A) the real binary, free-running: every singleton and pair, every subset of the first five, the triples around the exporting/importing pair and all eight at once, in both orders, repeated, the larger sets also under GOMAXPROCS 1..3 (all eight: 1..7): exit status, files and stderr equal those composed from solo runs. (C) a -race build of cmd/goose translating all packages with GOMAXPROCS 1, 2, 16",
+		Rule:        "fixture of 8 packages (plain; two files on the disk FFI; conversion errors among good declarations; importing another package and re-using its identifiers with other shapes; sync + an error; a package exporting a struct / method / constant / interface and a package using them; a declaration with seven independent forward references). (B) the real TranslatePackages under the controlled scheduler (interface.go instrumented by overlay: workers are controlled threads, WaitGroup/channels are scheduler objects, preemption points at function entries and loop heads, i.e. between declarations; every range over a map in the translator and printer iterates in an order chosen by the explorer; packages.Load memoised): every pair of packages with <=2 preemptions and every triple with <=1 (thorough: pairs 3, triples 2, quadruples 1), in both pattern orders; oracle: every returned (package, file bytes, error text) equals the solo translation and the returned sequence is the same in every schedule. (A) the real binary, free-running: every singleton and pair, every subset of the first five, the triples around the exporting/importing pair and all eight at once, in both orders, repeated, the larger sets also under GOMAXPROCS 1..3 (all eight: 1..7), and once more for every pair and all eight under -source-comments and under -typecheck: exit status, files and stderr equal those composed from solo runs. (C) a -race build of cmd/goose translating all packages with GOMAXPROCS 1, 2, 16",
 		Assumptions: []string{"interleavings inside the translation of one declaration (goose.go has no preemption points) are covered only by the free-running -race pass", "the loaded packages are treated as read-only and shared between explored executions"},
 		Extra:       mcx.Extra(acc, map[string]any{}),
 	}))
